@@ -42,8 +42,8 @@ static void futex_wake(volatile int* a) { syscall(SYS_futex, a, FUTEX_WAKE, 1, N
 static void wait_go(vthread_t* t) { while (__atomic_load_n(&t->go, __ATOMIC_ACQUIRE) == 0) futex_wait(&t->go, 0); __atomic_store_n(&t->go, 0, __ATOMIC_RELAXED); }
 static void wake(vthread_t* t) { __atomic_store_n(&t->go, 1, __ATOMIC_RELEASE); futex_wake(&t->go); }
 
-static void fail(const char* fmt, const void* a, int b) {
-    char buf[200]; snprintf(buf, sizeof buf, fmt, a, b);
+static void fail(const char* fmt, const void* unused, int b) {
+    char buf[200]; (void)unused; snprintf(buf, sizeof buf, fmt, b);
     active = 0;
     cfg.fail(buf);      /* does not return */
     _exit(43);
@@ -53,14 +53,14 @@ static int find_mutex(void* addr, int create) {
     for (int i = 0; i < nM; i++) if (M[i].addr == addr && M[i].alive) return i;
     if (!create) return -1;
     for (int i = 0; i < nM; i++) if (!M[i].alive) { M[i].addr = addr; M[i].owner = -1; M[i].alive = 1; return i; }
-    if (nM >= VS_MAXM) fail("scheduler: mutex table full %p %d", addr, nM);
+    if (nM >= VS_MAXM) fail("scheduler: mutex table full (%d)", NULL, nM);
     M[nM].addr = addr; M[nM].owner = -1; M[nM].alive = 1; return nM++;
 }
 static int find_cond(void* addr, int create) {
     for (int i = 0; i < nC; i++) if (C[i].addr == addr && C[i].alive) return i;
     if (!create) return -1;
     for (int i = 0; i < nC; i++) if (!C[i].alive) { C[i].addr = addr; C[i].nw = 0; C[i].alive = 1; return i; }
-    if (nC >= VS_MAXC) fail("scheduler: cond table full %p %d", addr, nC);
+    if (nC >= VS_MAXC) fail("scheduler: cond table full (%d)", NULL, nC);
     C[nC].addr = addr; C[nC].nw = 0; C[nC].alive = 1; return nC++;
 }
 
@@ -89,7 +89,7 @@ static void pick_and_switch(int exiting) {
     int E[2 * VS_MAXT], S[2 * VS_MAXT], n = 0, sp, curEnabled = 0;
     vthread_t* me = &T[cur];
     if (trace) { static const char* N[] = {"none","start","lock","unlock","wait","relock","signal","bcast","create","join","yield","exit"}; fprintf(stderr, "[%ld] t%d %s m%d c%d site=%lx\n", steps, cur, N[me->op], me->m, me->c, (unsigned long)me->site); }
-    if (++steps > cfg.horizon) fail("livelock candidate: more than %p visible operations (%d)", (void*)cfg.horizon, 0);
+    if (++steps > cfg.horizon) fail("livelock candidate: visible-operation horizon exceeded (%d)", NULL, (int)cfg.horizon);
     if (cfg.visited && cfg.statekey) cfg.visited(cfg.statekey() ^ vs_sched_hash());
     /* A thread that comes back to a scheduler-visible state it already went through since it was switched in is
      * busy-waiting (e.g. ZSTD_compressStream2 re-trying POOL_tryAdd until a worker is free).  Waiting must be visible:
@@ -139,15 +139,15 @@ int vf_mutex_destroy(pthread_mutex_t* m) {
     if (cfg.passthrough || !active) return pthread_mutex_destroy(m);
     int i = find_mutex(m, 0);
     if (i < 0) return 0;
-    if (M[i].owner >= 0) fail("destroy of a locked mutex %p (owner t%d)", m, M[i].owner);
-    for (int t = 0; t < nT; t++) if (!T[t].done && (T[t].op == OP_LOCK || T[t].op == OP_RELOCK) && T[t].m == i && t != cur) fail("destroy of a mutex %p another thread (t%d) is blocked on", m, t);
+    if (M[i].owner >= 0) fail("destroy of a locked mutex (owner t%d)", NULL, M[i].owner);
+    for (int t = 0; t < nT; t++) if (!T[t].done && (T[t].op == OP_LOCK || T[t].op == OP_RELOCK) && T[t].m == i && t != cur) fail("destroy of a mutex another thread (t%d) is blocked on", NULL, t);
     M[i].alive = 0; return 0;
 }
 int vf_mutex_lock(pthread_mutex_t* m) {
     if (cfg.passthrough || !active) return pthread_mutex_lock(m);
     vthread_t* me = &T[cur];
     int i = find_mutex(m, 1);
-    if (M[i].owner == cur) fail("relock of a mutex %p already held by t%d", m, cur);
+    if (M[i].owner == cur) fail("relock of a mutex already held by t%d", NULL, cur);
     me->op = OP_LOCK; me->m = i; me->site = SITE();
     counters[0]++;
     pick_and_switch(0);
@@ -157,7 +157,7 @@ int vf_mutex_lock(pthread_mutex_t* m) {
 int vf_mutex_unlock(pthread_mutex_t* m) {
     if (cfg.passthrough || !active) return pthread_mutex_unlock(m);
     int i = find_mutex(m, 0);
-    if (i < 0 || M[i].owner != cur) fail("unlock of a mutex %p not held by t%d", m, cur);
+    if (i < 0 || M[i].owner != cur) fail("unlock of a mutex not held by t%d", NULL, cur);
     if (cfg.unlock_is_point) { T[cur].op = OP_UNLOCK; T[cur].site = SITE(); pick_and_switch(0); T[cur].op = OP_NONE; }
     M[i].owner = -1;
     return 0;
@@ -170,14 +170,14 @@ int vf_cond_init(pthread_cond_t* c, const pthread_condattr_t* a) {
 int vf_cond_destroy(pthread_cond_t* c) {
     if (cfg.passthrough || !active) return pthread_cond_destroy(c);
     int i = find_cond(c, 0); if (i < 0) return 0;
-    if (C[i].nw) fail("destroy of a condition variable %p with %d waiter(s)", c, C[i].nw);
+    if (C[i].nw) fail("destroy of a condition variable with %d waiter(s)", NULL, C[i].nw);
     C[i].alive = 0; return 0;
 }
 int vf_cond_wait(pthread_cond_t* c, pthread_mutex_t* m) {
     if (cfg.passthrough || !active) return pthread_cond_wait(c, m);
     vthread_t* me = &T[cur]; int self = cur;
     int mi = find_mutex(m, 0), ci = find_cond(c, 1);
-    if (mi < 0 || M[mi].owner != cur) fail("cond_wait with mutex %p not held by t%d", m, cur);
+    if (mi < 0 || M[mi].owner != cur) fail("cond_wait with a mutex not held by t%d", NULL, cur);
     me->op = OP_WAIT; me->site = SITE();
     pick_and_switch(0);                       /* the wait itself is a visible operation */
     M[mi].owner = -1; C[ci].w[C[ci].nw++] = self; me->signalled = 0; me->spur = 0;
@@ -226,7 +226,7 @@ int vf_create(pthread_t* th, const pthread_attr_t* a, void* (*fn)(void*), void* 
     T[cur].op = OP_CREATE; T[cur].site = SITE();
     pick_and_switch(0);
     T[cur].op = OP_NONE;
-    if (nT >= VS_MAXT) fail("scheduler: too many threads %p %d", NULL, nT);
+    if (nT >= VS_MAXT) fail("scheduler: too many threads (%d)", NULL, nT);
     vthread_t* t = &T[nT];
     memset(t, 0, sizeof *t);
     t->used = 1; t->id = nT; t->fn = fn; t->arg = arg; t->op = OP_START; t->c = -1; t->m = -1;
@@ -240,7 +240,7 @@ int vf_join(pthread_t th, void** ret) {
     if (cfg.passthrough || !active) return pthread_join(th, ret);
     int target = -1;
     for (int i = 0; i < nT; i++) if (T[i].used && !T[i].joined && i != 0 && pthread_equal(T[i].real, th)) { target = i; break; }
-    if (target < 0) fail("join of an unknown thread %p %d", (void*)th, 0);
+    if (target < 0) fail("join of an unknown thread (%d)", NULL, 0);
     T[cur].op = OP_JOIN; T[cur].target = target; T[cur].site = SITE();
     pick_and_switch(0);
     T[cur].op = OP_NONE;
@@ -266,7 +266,7 @@ void vs_begin(const vs_config_t* c) {
 }
 void vs_end(void) {
     if (!active) return;
-    for (int i = 1; i < nT; i++) if (!T[i].done) { active = 0; fail("thread t%p still running at the end of the execution (%d threads)", (void*)(uintptr_t)i, nT); }
+    for (int i = 1; i < nT; i++) if (!T[i].done) { active = 0; fail("a thread is still running at the end of the execution (t%d)", NULL, i); }
     /* reap threads nobody joined */
     for (int i = 1; i < nT; i++) if (!T[i].joined) { pthread_join(T[i].real, NULL); T[i].joined = 1; }
     active = 0;
